@@ -1,6 +1,7 @@
 import NfpmModel.Wire
 import NfpmModel.Spec.PlanSpec
 import NfpmModel.Spec.PayloadSpec
+import NfpmModel.Spec.ScriptSpec
 /-
   Model driver: one request per line on stdin, one answer per line on stdout.
   Core-only so that it links as a `lean_exe`.
@@ -89,6 +90,24 @@ def handle (op : String) (args : List String) : Except String String :=
   | "conflines" => do
     let body ← run1 pBytes args
     pure (showBytesList (Spec.conffilesLines body))
+  | "scriptslots" => do
+    let (f, c) ← run1 (do
+      let f ← pFmt
+      let c ← pList (do let a ← pBytes; let b ← pBytes; pure (a, b))
+      pure (f, c)) args
+    let sl := scriptSlots f c
+    pure (s!"{sl.length}" ++ String.join (sl.map (fun (a, b) => s!" {hex a} {hex b}")))
+  | "archinstall" => do
+    let sl ← run1 (pList (do let a ← pBytes; let b ← pBytes; pure (a, b))) args
+    pure (hex (archInstall sl))
+  | "c09check" => do
+    let (f, c, obs) ← run1 (do
+      let f ← pFmt
+      let c ← pList (do let a ← pBytes; let b ← pBytes; pure (a, b))
+      let obs ← pList (do let a ← pBytes; let b ← pBytes; pure (a, b))
+      pure (f, c, obs)) args
+    let v := Spec.checkScripts f c obs
+    pure (if v.isEmpty then "holds" else "violated " ++ String.intercalate ";" v)
   | "configpaths" => do
     let plan ← run1 (pList pContentOut) args
     pure (showBytesList (Spec.configPaths plan))
